@@ -107,6 +107,18 @@ def stress_model():
                    'string(date and time(w + "@Europe/Warsaw") < date and time("2021-03-28T01:15:00Z")), '
                    'string(date and time(y + "@America/New_York") - date and time("2021-11-06T12:00:00Z")), '
                    'string(date and time(y + "@America/New_York") = date and time(y + "-05:00"))]', inputs=['w', 'y']),
+        # a knowledge model that is invoked directly and whose body calls a decision service whose output decision requires another knowledge
+        # model (the evaluation re-enters the knowledge-model evaluator while it is inside it), next to 40 knowledge models that are each used for
+        # the first time by some call (anything that fills a cache under a write lock at first use while another call is nested inside a read
+        # section of the same lock shows here as a deadlock; seeded change C20_g)
+        *['<businessKnowledgeModel name="u%d" id="b_u%d"><variable name="u%d"/><encapsulatedLogic><formalParameter name="n" typeRef="number"/>'
+          '<literalExpression><text>n + %d</text></literalExpression></encapsulatedLogic></businessKnowledgeModel>' % (k, k, k, k) for k in range(40)],
+        *[lit('e%d' % k, 'u%d(a)' % k, inputs=['a'], knowledge=['u%d' % k]) for k in range(40)],
+        lit('dsv', 'fib(7) + u0(1)', knowledge=['fib', 'u0']),
+        '<decisionService name="svf" id="s_svf"><variable name="svf"/><outputDecision href="#d_dsv"/></decisionService>',
+        '<businessKnowledgeModel name="reent" id="b_reent"><variable name="reent"/><encapsulatedLogic><formalParameter name="n" typeRef="number"/>'
+        '<literalExpression><text>svf() + n</text></literalExpression></encapsulatedLogic>'
+        '<knowledgeRequirement><requiredKnowledge href="#s_svf"/></knowledgeRequirement></businessKnowledgeModel>',
         lit('top', '{n: num, t: tbl, r: rex, f: fib(modulo(abs(floor(a)), 11))}', decisions=['num', 'tbl', 'rex'], knowledge=['fib'], inputs=['a']),
         '<decisionService name="svc" id="s_svc"><variable name="svc"/><outputDecision href="#d_top"/><encapsulatedDecision href="#d_num"/>'
         '<encapsulatedDecision href="#d_tbl"/><encapsulatedDecision href="#d_rex"/><inputData href="#i_a"/><inputData href="#i_s"/></decisionService>',
@@ -122,8 +134,13 @@ def gen_calls(rng, n):
         a = rng.choice([0, 1, 5, 6.5, 7, 9.99, 10, 25, 50, 99, 100, 1001, -3, -0.5, 123456.789]) if rng.random() < 0.7 else round(rng.uniform(-50, 1500), 3)
         s = rng.choice(words)
         d = rng.choice(dates)
-        inv = rng.choice(['num', 'tmp', 'rex', 'tbl', 'top', 'top', 'svc', 'fib', 'rnd', 'rnd', 'trn', 'trn', 'pri', 'pri', 'ord', 'ord', 'c0', 'c0', 'c75', 'zon', 'zon', 'zon'])
-        if inv == 'zon':
+        inv = rng.choice(['num', 'tmp', 'rex', 'tbl', 'top', 'top', 'svc', 'fib', 'rnd', 'rnd', 'trn', 'trn', 'pri', 'pri', 'ord', 'ord', 'c0', 'c0', 'c75', 'zon', 'zon', 'zon', 'reent', 'reent', 'reent', 'ek', 'ek', 'ek', 'ek'])
+        if inv == 'reent':
+            ctx = '{n: %d}' % rng.randint(0, 5)
+        elif inv == 'ek':
+            inv = 'e%d' % rng.randrange(40)
+            ctx = '{a: %s}' % a
+        elif inv == 'zon':
             ctx = '{w: "2021-03-28T%s", y: "2021-11-07T%s"}' % (rng.choice(['00:30:00', '01:30:00', '01:59:59', '03:00:00', '03:30:00', '12:00:00']),
                                                                rng.choice(['00:30:00', '00:59:59', '02:00:00', '03:30:00', '12:00:00']))
         elif inv == 'fib':
